@@ -157,3 +157,116 @@ def fix_floats(v):
     if isinstance(v, list):
         return [fix_floats(x) for x in v]
     return v
+
+
+# ---------------------------------------------------------------- the tool mains (cmd/bkld, cmd/bkli, cmd/bklr)
+# FileMatch, inheritance of tool inputs, "exactly one document", evaluation (bkld), format choice (-f, -o, input):
+# real tool on a materialised directory vs the model (Bkl.ToolsCli) on the abstract one.
+
+def _tool_doc(rng, tool):
+    d = pmap_tree(rng, depth=2)
+    if tool == "bklr" or rng.random() < 0.2:
+        d = gen.with_required(rng, d, 0.25)
+    return d
+
+
+def tool_cli_case(rng, tool):
+    layout = {}
+    nin = {"bkld": 2, "bkli": rng.randint(1, 3), "bklr": 1}[tool]
+    inputs = []
+    for i in range(nin):
+        stem = "in%d" % i
+        ext = rng.choice(["yaml", "json", "toml", "yml"])
+        doc = _tool_doc(rng, tool)
+        r = rng.random()
+        docs = [doc]
+        if r < 0.1:
+            docs = [doc, {"second": 1}]                      # more than one document: refused
+        if ext == "toml" and not all(formats.toml_ok(x) for x in docs):
+            ext = "yaml"
+        layout[f"{stem}.{ext}"] = {"fmt": ext, "docs": docs}
+        name = stem
+        if rng.random() < 0.35:
+            # the input is the top of a filename chain: inheritance applies to tool inputs
+            up = {rng.choice(KEYS): rng.choice(SCAL), "upper": True}
+            if tool == "bkld" and rng.random() < 0.4 and isinstance(doc, dict) and doc:
+                k0 = sorted(doc)[0]
+                up["ref"] = {"$merge": k0} if isinstance(doc[k0], dict) else "$merge:" + k0    # bkld evaluates both sides
+            e2 = rng.choice(["yaml", "json"])
+            layout[f"{stem}.up.{e2}"] = {"fmt": e2, "docs": [up]}
+            name = stem + ".up"
+            ext = e2
+        r = rng.random()
+        if r < 0.15:
+            arg = name + "." + rng.choice(["json", "yaml", "toml"])     # virtual extension
+        elif r < 0.2:
+            arg = name + ".txt"
+        elif r < 0.24:
+            arg = "nosuch.yaml"
+        else:
+            arg = name + "." + ext
+        inputs.append(arg)
+    opts = {"inputs": inputs,
+            "format": rng.choice([None, None, None, "json", "yaml", "toml", "json-pretty"]),
+            "out": rng.choice([None, None, None, "out.json", "out.yaml", "out.toml", "out", "o.yml", "out.txt", "sub.d/out.json"])}
+    if opts["out"] and "/" in opts["out"]:
+        layout["sub.d/keep.txt"] = {"raw": "x"}
+    return {"layout": layout, "opts": opts, "tool": tool}
+
+
+def tool_cli_stage(rep, tool, rng, n):
+    import fscheck
+    from cli import pmap
+    cases = [tool_cli_case(rng, tool) for _ in range(n)]
+    res = pmap(lambda c: fscheck.run_case(c, tool=tool), cases)
+    ops = []
+    for i, (obs, op) in enumerate(res):
+        ops.append({"op": "toolcli", "id": i, "tool": tool, "entries": op["entries"], "cwd": op["cwd"], "env": {}, "opts": op["opts"]})
+    mres = model_ops(ops)
+    bad = 0
+    for i, (c, (obs, _)) in enumerate(zip(cases, res)):
+        m = mres.get(i) or {}
+        rep.case(["toolcli", c], True, sample={"toolcli": c["opts"], "files": sorted(c["layout"])} if i < 2 else None)
+        rep.traces += 1
+        d = None
+        if obs["shape"]:
+            d = "implementation " + obs["shape"]
+        elif "unmodelled" in m:
+            rep.count(f"toolcli:{tool}:unmodelled")
+        elif "err" in m:
+            rep.count(f"toolcli:{tool}:err")
+            if obs["rc"] == 0:
+                d = f"{tool} succeeds where the model of its main reports {m['err']}"
+        elif "ok" not in m:
+            d = f"MODEL-PROBLEM {str(m)[:150]}"
+        else:
+            rep.count(f"toolcli:{tool}:ok:{m['ok']['format']}")
+            if obs["rc"] != 0:
+                d = f"{tool} fails ({obs['err'][:120]}) where the model of its main succeeds"
+            else:
+                text = obs["outfile"] if c["opts"].get("out") else obs["out"]
+                fmt = m["ok"]["format"]
+                if text is None:
+                    d = "-o was given but no file was written"
+                elif c["opts"].get("out") and obs["out"]:
+                    d = "output went to stdout although -o was given"
+                else:
+                    try:
+                        got = formats.load_all(fmt, text)
+                    except Exception as e:
+                        got = None
+                        d = f"output is not valid {fmt} (the format the model selects): {str(e)[:80]}"
+                    if got is not None:
+                        if m["ok"]["nil"]:
+                            if got not in ([], [None], [{}]):
+                                d = "the model emits an empty document, the tool something else"
+                        else:
+                            want = from_wire(m["ok"]["doc"])
+                            if len(got) != 1 or not formats.same(got[0], want, True):
+                                d = f"{tool} output differs from the model (format {fmt})"
+        if d:
+            bad += 1
+            if len(rep.violations) < 5:
+                rep.disagreements_checked += 1
+                rep.violation(f"{tool} main: {d}", {"case": {"toolcli": c}, "observed": obs, "model": m})
+    return bad
